@@ -160,6 +160,19 @@ func TestPerValueShaping(t *testing.T) {
 		if rapid.IntRange(0, 3).Draw(t, "second") == 0 {
 			rules = append(rules, drawRule(t, c, "r1", selector))
 		}
+		var absent *hotspot.Rule
+		if rapid.IntRange(0, 3).Draw(t, "absentArgumentRuleFirst") == 0 {
+			// a rule on an argument no request ever carries, listed first: it limits nothing ("requests without the selected
+			// argument are never limited") and the rules after it meter as if it were not there
+			absent = &hotspot.Rule{ID: "absent", Resource: "h", MetricType: hotspot.QPS, ParamIndex: 9, Threshold: 0, DurationInSec: 1, SpecificItems: map[interface{}]int64{}}
+			c.Class("rule-on-an-absent-argument-listed-first")
+		}
+		loaded := func() []*hotspot.Rule { // what is loaded: the rules of the case, behind the absent-argument rule if drawn
+			if absent == nil {
+				return rules
+			}
+			return append([]*hotspot.Rule{absent}, rules...)
+		}
 		nvals := rapid.IntRange(1, 5).Draw(t, "nvals")
 		c.Op("values in use: %#v", vals[:nvals])
 		capKind := rapid.IntRange(0, 3).Draw(t, "capacity")
@@ -190,7 +203,7 @@ func TestPerValueShaping(t *testing.T) {
 				}
 			}
 		}
-		full := run(t, rules, selector, reqs, t0)
+		full := run(t, loaded(), selector, reqs, t0)
 		for i, q := range reqs {
 			c.Op("t=+%d v=%d batch=%d -> pass=%v wait=%dms", q.t-t0, q.vi, q.batch, full[i].pass, full[i].wait/1e6)
 		}
@@ -319,7 +332,7 @@ func TestPerValueShaping(t *testing.T) {
 			for _, i := range idx {
 				proj = append(proj, reqs[i])
 			}
-			alone := run(t, rules, selector, proj, t0)
+			alone := run(t, loaded(), selector, proj, t0)
 			for k, i := range idx {
 				if alone[k] != full[i] {
 					t.Fatalf("value %v: request at t=+%d batch %d got pass=%v wait=%dns in the full history but pass=%v wait=%dns when only this value's traffic is replayed (another value's traffic changed the decision)", v, reqs[i].t-t0, reqs[i].batch, full[i].pass, full[i].wait, alone[k].pass, alone[k].wait)
